@@ -103,6 +103,9 @@ type c07EnvCase struct {
 	Cwd  string   `json:"cwd"`
 	Args []string `json:"args"`
 	Fix  bool     `json:"fix"` // -F: runs on a copy, resulting tree compared as well
+	// DirLink: absolute path of a symbolic link to Root/Cwd; when set, the process is started there
+	// (chdir through the link; PWD = the link's path, as a shell sets it after `cd link`)
+	DirLink string `json:"dirlink"`
 }
 
 // c07EnvRun runs the real binary once for the case in the environment.
@@ -127,6 +130,9 @@ func c07EnvRun(ctx *Ctx, c c07EnvCase, e c07Env, run string) c07Out {
 		base = link
 	}
 	cwd := filepath.Join(base, c.Cwd)
+	if c.DirLink != "" {
+		cwd = c.DirLink
+	}
 	tctx, cancel := context.WithTimeout(context.Background(), 60*time.Second)
 	defer cancel()
 	var cmd *exec.Cmd
@@ -660,10 +666,43 @@ func c07ConfirmEnvDiff(ctx *Ctx, res *Result, t *c07EnvTree, c c07EnvCase, ea, e
 		res.AddViolation(Violation{Key: "C07/environment/" + what + "/" + d.key(), FoundInput: true, Size: len(as[0].Stdout) + len(bs[0].Stdout),
 			What: fmt.Sprintf("`pkglint %s` (cwd %s) on the same tree gives a different result when only the environment differs (%s): %s",
 				strings.Join(c.Args, " "), c.Cwd, varied, c07Where(as[0], bs[0])),
-			Replay: map[string]any{"kind": "env", "var": what, "cwd": c.Cwd, "args": c.Args, "fix": c.Fix, "files": c07TreeFiles(t.Root), "mtimes": c07TreeMtimes(t.Root),
+			Replay: map[string]any{"kind": "env", "var": what, "cwd": c.Cwd, "args": c.Args, "fix": c.Fix, "dirlink": filepath.Base(c.DirLink), "files": c07TreeFiles(t.Root), "mtimes": c07TreeMtimes(t.Root),
 				"env_a": ea, "env_b": eb, "stdout_a": as[0].Stdout, "stdout_b": bs[0].Stdout, "exit_a": as[0].Exit, "exit_b": bs[0].Exit, "diff": d.what + "/" + d.kind}})
 	}
 	return true
+}
+
+// c07CwdLinkStage: the working directory is a package directory reached through a symbolic link with
+// another name (`ln -s pkgsrc/cat/pkg t/Pkg; cd t/Pkg; pkglint -Wall .`). The kernel's working directory
+// is the same in both runs of a pair, so are tree and arguments; only $PWD differs (set to the link's
+// path as a shell does / unset / stale). os.Getwd returns $PWD when it names the working directory.
+func c07CwdLinkStage(ctx *Ctx, res *Result) {
+	base := c07BaseEnv()
+	for i, name := range []string{"Pkg", "other"} {
+		root := filepath.Join(ctx.Work, fmt.Sprintf("cwdlink%d", i))
+		t := NewBaseTree(root)
+		et := &c07EnvTree{Root: root, Link: root + ".lnk"}
+		dl := filepath.Join(root+".dl", "t", name)
+		os.MkdirAll(filepath.Dir(dl), 0o755)
+		os.Remove(dl)
+		if err := os.Symlink(t.Path("cat/pkg"), dl); err != nil {
+			res.Broken = err.Error()
+			return
+		}
+		c := c07EnvCase{Tree: i, Root: root, Link: et.Link, Cwd: "cat/pkg", Args: []string{"-Wall", "."}, DirLink: dl}
+		for _, e := range c07EnvVariants(false) {
+			if e.Name != "PWD" {
+				continue
+			}
+			a, b := c07EnvRun(ctx, c, base, "la"), c07EnvRun(ctx, c, e, "lb")
+			res.Evaluations += 2
+			res.Count("env.cwd-link.pairs", 1)
+			if !a.same(b) {
+				res.Count("env.cwd-link.differ", 1)
+				c07ConfirmEnvDiff(ctx, res, et, c, base, e, "PWD")
+			}
+		}
+	}
 }
 
 // ---------- replay ----------
@@ -703,6 +742,12 @@ func replayC07Env(ctx *Ctx, rep map[string]any) *Result {
 	cwd, _ := rep["cwd"].(string)
 	fix, _ := rep["fix"].(bool)
 	c := c07EnvCase{Root: root, Link: root + ".lnk", Cwd: cwd, Args: c07Strings(rep["args"]), Fix: fix}
+	if dl, _ := rep["dirlink"].(string); dl != "" && dl != "." {
+		os.MkdirAll(root+".dl", 0o755)
+		c.DirLink = filepath.Join(root+".dl", dl)
+		os.Remove(c.DirLink)
+		os.Symlink(filepath.Join(root, cwd), c.DirLink)
+	}
 	ea, eb := c07EnvFromJSON(rep["env_a"]), c07EnvFromJSON(rep["env_b"])
 	what, _ := rep["var"].(string)
 	t := &c07EnvTree{Root: root, Link: root + ".lnk"}
@@ -718,7 +763,11 @@ func init() {
 	// `vharness run tool-c07env …`: the environment stage alone (development aid)
 	register("tool-c07env", func(ctx *Ctx) *Result {
 		res := &Result{}
-		c07EnvStage(ctx, res, NewRng(ctx.Seed))
+		c07CvsUnit(ctx, res, NewRng(ctx.Seed^0xc07c5))
+		if os.Getenv("C07_UNIT_ONLY") == "" {
+			c07EnvStage(ctx, res, NewRng(ctx.Seed))
+			c07CwdLinkStage(ctx, res)
+		}
 		return res
 	}, nil)
 }
